@@ -1,5 +1,6 @@
 import MgProof.C08.Main
 import MgProof.C08.Crash
+import MgProof.C08.HBStep3
 /-!
 # C08 — property theorems for the shared-memory ring buffer
 
@@ -154,6 +155,17 @@ not a header as a header. None is reachable. -/
 theorem no_model_error (hN : 1 ≤ N) (hc : Client wt rt useLock progs)
     (s : St) (hr : Reach step (mkInit N useLock progs).1 s) : s.errs = 0 :=
   (reach_inv hN hc s hr).cnt.2.2.2.2.2.2
+
+/-- **Mechanism (release-store of `write_cursor` on commit / wrap, acquire-load in `r_fetch`; the
+write lock for several writers).** `stale` counts the reads of a data cell — the reader's reads of
+`n_bytes`, `n_cachelines` and of the payload, a writer's read-back of its own header in `w_move` —
+whose latest write is not ordered before the read by happens-before (program order, the
+release/acquire pair on `write_cursor`, release/acquire of the lock word), tracked with knowledge
+sets as in C04. It stays 0: with the memory orders the code uses (they are part of every compared
+trace event), whatever `r_fetch` parses was published before it loaded the cursor. -/
+theorem no_stale_read (hN : 1 ≤ N) (hc : Client wt rt useLock progs)
+    (s : St) (hr : Reach step (mkInit N useLock progs).1 s) : s.stale = 0 :=
+  (reach_both hN hc s hr).2.stale
 
 /-! ## the constants are exact (negative witnesses, by evaluation of the model) -/
 
